@@ -491,11 +491,11 @@ func init() {
 	}
 
 	planTable["C35"] = enumPlan("exploration",
-		"Handles A and B in the checking process and handle C in a helper process (same binary, driven over a pipe); every sequence of up to 4 (quick) / 6 (thorough) operations OpenRW / OpenRO / Close over the three handles (Close only on an open handle) under four directory layouts - all handles on Dir=ValueDir=X; all on (X,Y); crossed (A and C on (X,Y), B on (Y,X)); partially overlapping (A on (X,Y), B on (Z,Y), C on (X,X)): every Open succeeds exactly when the per-directory reader-writer-lock model allows it (no writer on any of its directories, and no reader either for a read-write open), a refused open fails with the directory-lock error, leaves no lock behind (later legal opens succeed), and an in-process writer can still write afterwards; Close releases the lock.",
+		"Handles A and B in the checking process and handle C in a helper process (same binary, driven over a pipe); every sequence of up to 4 (quick) / 6 (thorough) operations OpenRW / OpenRO / Close over the three handles (Close only on an open handle) under four directory layouts - all handles on Dir=ValueDir=X; all on (X,Y); crossed (A and C on (X,Y), B on (Y,X)); partially overlapping (A on (X,Y), B on (Z,Y), C on (X,X)): every Open succeeds exactly when the per-directory reader-writer-lock model allows it (no writer on any of its directories, and no reader either for a read-write open), a refused open fails with the directory-lock error, leaves no lock behind (later legal opens succeed), and an in-process writer can still write afterwards; Close releases the lock. Environment deviation: the advisory pid file of Dir / ValueDir / both is removed while a read-write handle is open (2 layouts x 4 removals x opener in the same or in another process x read-write / read-only): Close may report it but the next Open must succeed and find the data.",
 		"Real flock-based locking between two OS processes and within one process; databases are real (initialised once per directory pair so that read-only opens find a MANIFEST).",
 		"recursive enumeration of operation sequences with the lock model deciding which handles are open; distinct = distinct (layout, sequence)",
-		[]Stage{en("c35lock", 16, 90, prm("len", 4))},
-		[]Stage{en("c35lock", 16, 1200, prm("len", 6))})
+		[]Stage{en("c35pid", 4, 20, nil), en("c35lock", 16, 90, prm("len", 4))},
+		[]Stage{en("c35pid", 4, 60, nil), en("c35lock", 16, 1200, prm("len", 6))})
 
 	planTable["C26"] = enumPlan("exploration",
 		"Stream contents: every non-empty subset of 5 user keys {a,ab,b,c,d} x 3 version patterns (two versions each / newest only / mixed), values at threshold-1/threshold/threshold+1, delete markers, user meta, expiry; split into one or two streams with disjoint key ranges at every key boundary; x {Prepare on a non-empty DB, PrepareIncremental on an empty DB, over data in the last level only, over L0 + last level (the Flatten branch)}; each stream cut into Write batches by 3 patterns (one batch / singletons / two halves that may separate a key's versions), the two streams' batches interleaved 4 ways (including both streams in one buffer), done markers absent / with the last batch / in a separate buffer, plain / encrypted / snappy / in-memory (quick: 2 rotating combinations of these four per (content, split, mode); thorough: all 432); table size 300 bytes so a stream spans several tables, ValueLogMaxEntries 1 so the value log rotates between the streams of one Write call. After Flush: the dump of ALL versions (value, user meta, expiry, delete markers) equals exactly the streamed entries plus, in incremental mode, the pre-existing ones; levels are structurally valid and match the MANIFEST and the files; the same after close and re-open; the next commits get timestamps above every streamed version and are read back.",
